@@ -66,7 +66,7 @@ def _one(args):
                 key = re.sub(r"\{closure#\d+\}", "{closure}", f.key)
                 if key not in known:
                     viol.append({"rule": res.rule, "key": key, "line": f.line, "file": f.file})
-            for (n, c, fl) in res.floor_failures():
+            for (n, c, fl) in res.floor_failures(reference=bool(getattr(ctx, '_is_ref', False))):
                 viol.append({"rule": res.rule, "key": "%s/floor/%s" % (res.rule, n), "line": None, "file": None})
         want = kind == "seed"
         ok = bool(viol) == want
